@@ -110,6 +110,14 @@ class HDeck(Deck):
 
     def add_surface(self, num, mn, params):
         self.refsurfs[num] = refsem.mcnp_surface(mn, params)
+        shift = getattr(self, 'shift', None)
+        if shift is not None:
+            # the deck is written far from the origin (x -> x + shift); the reference stays where it is and the
+            # output is pulled back before it is compared (only decks whose motions are translations)
+            if mn != 'p' or len(params) != 4:
+                raise ValueError('a shifted deck is written with general planes only')
+            n = np.array(params[:3], float)
+            params = list(params[:3]) + [params[3] + float(n @ np.asarray(shift, float))]
         self.surfcards[num] = mn + ' ' + ' '.join(fmt(x) for x in params)
 
     def add_cell(self, cell):
